@@ -171,6 +171,12 @@ def apply_node_op(node, op):
             y = node.yaml_node
             node.make_mapping()
             node.set_attribute(op[1], y)
+    elif k == 'parse_pair':           # savorize of a parsed class: 'a b' -> {op1: 'a', op2: 'b'}, built with the helpers only
+        if node.is_scalar(str):
+            a, _, b_ = node.get_value().partition(' ')
+            node.make_mapping()
+            node.set_attribute(op[1], a)
+            node.set_attribute(op[2], b_)
     elif k == 'attr_to_scalar':       # sweeten: inverse of the above (when it is the only attribute)
         if node.is_mapping() and len(node.yaml_node.value) == 1 and node.has_attribute(op[1]):
             node.yaml_node = node.get_attribute(op[1]).yaml_node
